@@ -140,8 +140,11 @@ def check_input(rows, cols, enc, data, acc, rng, case, exhaustive_cuts):
         acc.count('chunkings_compared')
         if isinstance(data, bytes):
             for c in cuts:
-                if (data[c] & 0xC0) == 0x80 and enc == 'utf-8':
+                if ((data[c] & 0xC0) == 0x80 and enc == 'utf-8') or (
+                        enc in CJK and data[c - 1] >= 0x81 and data[c] < 0x80):
                     acc.count('cuts_inside_multibyte')
+                    if data[c] < 0x80:
+                        acc.count('cuts_before_ascii_range_trail_byte')
                     break
         else:
             if any(data[max(0, c - 4):c].rfind(ESC) > max(data[max(0, c - 4):c].rfind('m'), -1) for c in cuts):
@@ -206,7 +209,10 @@ def run_shard(spec, acc):
         shutil.rmtree(scratch, ignore_errors=True)
 
 
-ENCS = [None, 'latin-1', 'utf-8', 'cp437']
+ENCS = [None, 'latin-1', 'utf-8', 'cp437', 'utf-8', 'cp932', 'gbk', 'big5']
+# double-byte characters whose second byte is in the ASCII range (0x5c, 0x40, 0x5b ...) in cp932 / gbk / big5
+CJK = {'cp932': ['表', 'ソ', '十', '能', '日'], 'gbk': ['丂', '中', '乗', '丄'], 'big5': ['功', '許', '中', '蓋']}
+
 
 
 def encode_for(s, enc):
@@ -255,17 +261,25 @@ def _run(spec, acc):
         rows, cols = rng.choice([(1, 1), (2, 3), (3, 2), (4, 5), (24, 80), (5, 10), (1, 7), (6, 1)])
         toks = tokens(rows, cols, True)
         extra = ['€', 'é́', 'hello world', '\r\n', ESC + '[' + str(rng.randint(0, 99)) + ';' + str(rng.randint(0, 99)) + 'H']
+        enc = rng.choice(ENCS)
+        extra = extra + CJK.get(enc, [])
         seq = [rng.choice(toks) if rng.random() < 0.9 else rng.choice(extra) for _ in range(rng.randint(5, 60))]
         s = ''.join(seq)
         if i % 997 == 3:
             # a parameter longer than CPython's int() digit limit
             s = s + ESC + '[' + '9' * 4400 + 'A'
-        enc = rng.choice(ENCS)
         if enc is None:
             data = s
         else:
             acc.count('bytes_inputs')
             data = encode_for(s, enc)
+            if enc in ('utf-8', 'cp932', 'gbk', 'big5') and rng.random() < 0.3:
+                # malformed input: stray lead / continuation bytes, characters truncated by what follows
+                acc.count('malformed_bytes_inputs')
+                b = bytearray(data)
+                for _ in range(rng.randint(1, 3)):
+                    b.insert(rng.randint(0, len(b)), rng.choice([0x81, 0x83, 0x95, 0xc3, 0xe2, 0xf0, 0x80, 0xff]))
+                data = bytes(b)
         case = {'rows': rows, 'cols': cols, 'enc': enc, 'data': data}
         if check_input(rows, cols, enc, data, acc, rng, case, False):
             acc.nontrivial('c18', rows, cols, enc, data)
